@@ -1,7 +1,7 @@
 """C06 — inactive and suspended queues run nothing; resume restarts them."""
 import os, re, subprocess
 from common import sh
-from lanetrace import run_lane
+from lanetrace import run_lane, forced
 from props.C03 import replay
 
 META = {
@@ -53,6 +53,8 @@ def run(ctx):
         for p in paths: os.remove(p)
     # storms concurrent with submissions and drains
     run_lane(ctx, [(6, 300, 0), (10, 200, 0)] if not ctx.thorough else [(6, 3000, 0), (10, 2000, 0), (16, 1000, 0)], layer="L-trace lane (suspend storms)", what="c06")
+    # regression for F14 (repaired): a queue suspended while its drainer holds a pending-barrier reservation must run again after the resume
+    forced(ctx, "f14_pending_barrier", "F14", "lane:stranded:pending-barrier-reserved-twice", "F14")
     ctx.cov["rule"] = ("c06_suspend: depths {1,2,31..33,63..65,95..97,127..129,200} x {external, from own item, from barrier item, inactive+activate}, plus the one-committed-item "
                        "scenario; tr_lane: suspend/resume pairs and 70/130-deep nests from client threads concurrent with async/sync traffic. distinct_nontrivial = suspend/resume/activate "
                        "transitions explained by the models")
